@@ -585,6 +585,11 @@ def font_job(args):
             try:
                 f = _open(data, fontNumber)
                 try:
+                    if rng.random() < 0.5:
+                        # history: the same object was saved once before being reordered (compiling fills the
+                        # per-table name -> glyph-ID caches that a reorder has to invalidate)
+                        meta["history"] = "save-then-reorder"
+                        P.save(f)
                     reorderGlyphs(f, list(want))
                     after = P.save(f)
                     tm("reorder-transform")
